@@ -6,7 +6,8 @@ from vp.runner import Result, Deadline, exc_site
 from vp.gen import docs as gdocs, paths as gpaths
 from vp.model import query as mq, edit as medit
 from vp.model.compare import Unspecified
-from vp.model.plain import canon, is_seq, is_map, is_set, is_container
+from vp.model.plain import (canon, is_seq, is_map, is_set, is_container,
+                            positions)
 from vp import real
 
 ID = "C04"
@@ -18,13 +19,20 @@ RULE = ("E1: every document with <= 3 nodes (C01 alphabet; n=4 by stride) x "
         "after (a) delete_nodes() fully consumed and (b) gather + "
         "delete_gathered_nodes(), each on a freshly loaded copy; a match on "
         "the root must raise a YAMLPathException and leave the document "
-        "unchanged. E2: Hypothesis documents with anchors x derived paths. "
+        "unchanged; the same grid with the keys moved onto integer / "
+        "number-like / spaced keys; Collector additions (A)+(B)[+(C)] of the "
+        "coordinate paths of every two (three) nodes and two wildcards, in "
+        "every order, matched set = union of the operands' matches. "
+        "E2: Hypothesis documents with anchors x derived paths. "
         "Non-trivial = >= 2 matched positions, or an empty-container / "
         "nested / negative-index / repeated target; distinct by (document, "
         "path, entry).")
 ASSUMPTIONS = ["which positions a path matches is decided by the C01 "
                "reference evaluator (Unspecified paths are skipped and "
-               "counted)"]
+               "counted)",
+               "Collector operands whose results include a sequence (which "
+               "then stands for its elements) or that match nothing are "
+               "skipped and counted"]
 EXHAUSTIVE = {"quick": True, "thorough": True}
 SHARD_BUDGET_S = {"quick": 100, "thorough": 2400}
 HARD_TIMEOUT_S = {"quick": 900, "thorough": 7200}
@@ -69,15 +77,33 @@ def shape_of(matches):
 
 
 def check_delete(text, segs, ptext, kinds, res, entries=("delete", "gather"),
-                 doc_a=None):
-    """doc_a: an untouched loaded copy of text (never modified here)."""
+                 doc_a=None, operands=None):
+    """doc_a: an untouched loaded copy of text (never modified here).
+    operands: when given, the path is the collector addition (A)+(B)+... of
+    these operand paths and the matched set is the union of their matches."""
     from yamlpath.exceptions import YAMLPathException
     if doc_a is None:
         doc_a, ok = gdocs.load(text)
         if not ok or doc_a is None:
             return
     try:
-        matches = medit.flatten_matches(mq.evaluate(doc_a, segs))
+        if operands is not None:
+            matches = []
+            for op in operands:
+                got = medit.flatten_matches(mq.evaluate(doc_a, op))
+                if not got:
+                    # a required collector operand that matches nothing
+                    res.label("collector-operand-unmatched")
+                    return
+                if any(is_seq(g.v) for g in got):
+                    # a sequence among an operand's results stands for its
+                    # elements (always on the right of +, on the left when
+                    # it is the sole result)
+                    res.label("unspecified")
+                    return
+                matches += got
+        else:
+            matches = medit.flatten_matches(mq.evaluate(doc_a, segs))
     except Unspecified:
         res.label("unspecified")
         return
@@ -92,7 +118,15 @@ def check_delete(text, segs, ptext, kinds, res, entries=("delete", "gather"),
     delset = {medit.poskey(m.p, m.r) for m in matches if m.p is not None}
     expected = medit.sorted_set_canon(medit.canon_without(doc_a, delset))
     before = medit.sorted_set_canon(canon(doc_a))
-    case = {"doc": text, "path": gpaths.to_json(segs)}
+    case = {"doc": text, "path": gpaths.to_json(segs)} if operands is None \
+        else {"doc": text, "collector+": [gpaths.to_json(op)
+                                          for op in operands], "text": ptext}
+    if operands is not None:
+        mp = [m.path for m in matches]
+        if any(a != b and b[:len(a)] == a for a in mp for b in mp):
+            res.label("unspecified")    # an operand inside another operand
+            return
+        shape = "collector:" + shape
     for entry in entries:
         res.evaluations += 1
         doc_b, _ = gdocs.load(text)
@@ -156,6 +190,9 @@ def plan(tier, seed):
             shards.append({"kind": "grid", "nmax": 3, "part": i, "parts": 4,
                            "offset": seed, "keyvar": kv,
                            "stride": 5 if tier == "quick" else 1})
+    for i in range(8):
+        shards.append({"kind": "collect", "part": i, "parts": 8,
+                       "nmax": 3 if tier == "quick" else 4})
     nh, per = (16, 150) if tier == "quick" else (64, 1500)
     for i in range(nh):
         shards.append({"kind": "hyp", "seed": seed * 1000 + i,
@@ -196,9 +233,70 @@ def run_shard(shard):
                         (di * 31 + pi + shard["offset"]) % shard["stride"]:
                     continue
                 check_delete(text, segs, ptext, kinds, res, doc_a=doc_a)
+    elif shard["kind"] == "collect":
+        _run_collect(shard, res, dl)
     else:
         _run_hyp(shard, res, dl)
     return res
+
+
+COLLECT_EXTRA = [
+    ["M", [["a", ["L", [["S", 1, None], ["S", 2, None], ["S", 3, None]],
+                  None]]], None],
+    ["M", [["a", ["L", [["S", 1, None], ["S", 1, None], ["S", 2, None],
+                        ["S", 1, None]], None]], ["b", ["S", 1, None]]], None],
+    ["L", [["S", "x", None], ["S", "y", None], ["S", "z", None]], None],
+    ["M", [["a", ["M", [["a", ["S", 1, None]], ["b", ["S", 2, None]]], None]],
+           ["b", ["L", [["S", 1, None], ["S", 2, None]], None]]], None],
+]
+
+
+def _operands(doc):
+    """Coordinate path of every node below the root, plus two wildcards."""
+    out = []
+    for path, node, parent, ref in positions(doc):
+        if parent is None or any(st[0] == "m" for st in path):
+            continue
+        segs = []
+        for st in path:
+            if st[0] == "i":
+                segs.append(("index", st[1]))
+            elif len(st) > 2 and str(st[2]) != "":
+                segs.append(("key", str(st[2])))
+            else:
+                segs = None
+                break
+        if segs:
+            out.append(segs)
+    out.append([("all",)])
+    out.append([("key", "a"), ("all",)])
+    return out
+
+
+def _run_collect(shard, res, dl):
+    """(A)+(B) and (A)+(B)+(C) over coordinate paths in every order: the
+    order in which a collector lists its operands must not matter."""
+    specs = COLLECT_EXTRA + gdocs.specs_upto(shard["nmax"])
+    n = 0
+    for di in range(shard["part"], len(specs), shard["parts"]):
+        if dl.expired():
+            res.truncated = True
+            return
+        text = gdocs.emit(specs[di])
+        doc_a, ok = gdocs.load(text)
+        if not ok or doc_a is None or not is_container(doc_a):
+            continue
+        ops = _operands(doc_a)
+        combos = [(a, b) for a in ops for b in ops]
+        if di < len(COLLECT_EXTRA):
+            combos += [(a, b, c) for a in ops[:6] for b in ops[:6]
+                       for c in ops[:6] if a != b and b != c and a != c]
+        for combo in combos:
+            n += 1
+            sep = "/" if n % 2 else "."
+            ptext = "+".join("(%s)" % gpaths.render(op, sep) for op in combo)
+            check_delete(text, None, ptext, "C", res, doc_a=doc_a,
+                         operands=[list(op) for op in combo])
 
 
 def _run_hyp(shard, res, dl):
@@ -239,8 +337,13 @@ def _run_hyp(shard, res, dl):
 
 def replay(case):
     res = Result()
-    segs = gpaths.from_json(case["path"])
     entries = (case["entry"],) if "entry" in case else ("delete", "gather")
+    if "collector+" in case:
+        check_delete(case["doc"], None, case["text"], "C", res, entries,
+                     operands=[gpaths.from_json(p) for p in
+                               case["collector+"]])
+        return [r for _, recs in res.failures.values() for r in recs]
+    segs = gpaths.from_json(case["path"])
     check_delete(case["doc"], segs, gpaths.render(segs, "."),
                  gpaths.kinds(segs), res, entries)
     return [r for _, recs in res.failures.values() for r in recs]
